@@ -510,7 +510,23 @@ static void task_body(int task, void *arg) {
 	for (int i : rs.task_ops[task]) exec_op(rs, i);
 }
 
-Report execute(const Plan &plan, const Options &opt) {
+// A plan generated for another configuration (smaller dataset) keeps its meaning on this one if ranges that sit
+// near the END of the dataset it was written for are moved to the end of this dataset ("touching the last item"
+// is a property of the plan; absolute indices are not). Ranges elsewhere keep their indices.
+static Plan remap_for_this_config(const Plan &in) {
+	uint64_t N = dataset_items();
+	if (!in.items || in.items == N || N < in.items) return in;
+	Plan p = in;
+	const uint64_t window = 256;
+	for (auto &o : p.ops)
+		if (o.kind == INIT_DATASET && o.start + o.count + window >= in.items && o.start + window >= in.items) o.start += N - in.items;
+	p.items = N;
+	return p;
+}
+
+Report execute(const Plan &plan_in, const Options &opt) {
+	Plan plan_remapped = remap_for_this_config(plan_in);
+	const Plan &plan = plan_remapped;
 	Report rep;
 	g_run_index = opt.run_index;
 	uint64_t N = dataset_items();
